@@ -44,6 +44,10 @@
 (***************************************************************************)
 EXTENDS Integers, Sequences, FiniteSets, TLC, Json
 
+\* Generators A and B enumerate the candidates whose running index i satisfies i % Stride = Offset
+\* (Stride = 1, Offset = 0: all of them; the quick tier thins the enumeration, the selection is seeded).
+CONSTANTS Stride, Offset
+
 SetOf(s) == {s[k] : k \in 1..Len(s)}
 MinOf(S) == CHOOSE x \in S : \A y \in S : x <= y
 
@@ -537,8 +541,10 @@ Prog(ls, slots, top) ==
   [ls |-> ls, cls |-> NamedClasses, marks |-> <<5>>, alpha |-> <<1, 2, 3, 4, 5>>,
    top |-> (IF UsesHelpers(slots) THEN HelperLookups ELSE <<>>) \o top]
 
-Templates1 == {"anon", "nested", "ref"}
-Templates2 == {"aa", "ra", "ff", "sc", "sc0", "lg", "lgx", "lgx0", "nr", "same"}
+TplSeq1 == <<"anon", "nested", "ref">>
+TplSeq2 == <<"aa", "ra", "ff", "sc", "sc0", "lg", "lgx", "lgx0", "nr", "same">>
+Templates1 == SetOf(TplSeq1)
+Templates2 == SetOf(TplSeq2)
 Templates3 == {"aaa", "raf", "scl", "sclx", "sclx0", "fnf", "ffs", "nan"}
 
 Build(tpl, s) ==
@@ -576,11 +582,23 @@ SlotOk(t, ix) ==
   LookupOk([ty |-> t, rules |-> [k \in 1..Len(ix) |->
               Resolve([cls |-> NamedClasses], Univ[t][ix[k]], << <<8, 1>>, <<9, 2>> >>)]])
 OkIx == [t \in Types |-> {x \in IdxSeqs12(Len(Univ[t])) : SlotOk(t, x)}]
-CasesA == UNION {{[tpl |-> tpl, slots |-> <<[fl |-> fl, t |-> t, ix |-> ix]>>] :
-                    tpl \in Templates1, fl \in {-1, 8}, ix \in OkIx[t]} : t \in Types}
+Keep(i) == i % Stride = Offset
+TypeSeq == <<"ss", "ms", "ls", "cs", "sp", "pp">>
+\* running index of an A candidate: (type, rule indices) in the order of RECURSIVE SetToSeq, then template, flag
+RECURSIVE SetToSeqA(_)
+SetToSeqA(S) == IF S = {} THEN <<>> ELSE LET x == CHOOSE y \in S : TRUE IN <<x>> \o SetToSeqA(S \ {x})
+OkSeq == [t \in Types |-> SetToSeqA(OkIx[t])]
+Before(k) == LET F[i \in 0..Len(TypeSeq)] == IF i = 0 THEN 0 ELSE F[i-1] + Len(OkSeq[TypeSeq[i]]) IN F[k - 1]
+CasesA == UNION {{[tpl |-> TplSeq1[x[1]], slots |-> <<[fl |-> (IF x[2] = 0 THEN -1 ELSE 8), t |-> TypeSeq[k], ix |-> OkSeq[TypeSeq[k]][x[3]]]>>] :
+                    x \in {y \in (1..Len(TplSeq1)) \X {0, 1} \X (1..Len(OkSeq[TypeSeq[k]])) :
+                              Keep(((Before(k) + y[3] - 1) * 3 + (y[1] - 1)) * 2 + y[2])}} : k \in 1..Len(TypeSeq)}
 \* ---- generator B: every two-lookup program, one rule each from the reduced universe ("red" slots)
-CasesB == {[tpl |-> tpl, slots |-> <<[fl |-> fx, t |-> "red", ix |-> <<i>>], [fl |-> fy, t |-> "red", ix |-> <<j>>]>>] :
-             tpl \in Templates2, fx \in {-1, 8}, fy \in {-1, 0, 8}, i \in 1..Len(Reduced), j \in 1..Len(Reduced)}
+NR == Len(Reduced)
+FlagOf(c) == IF c = 0 THEN -1 ELSE IF c = 1 THEN 0 ELSE 8
+CasesB == {[tpl |-> TplSeq2[x[1]], slots |-> <<[fl |-> FlagOf(2 * x[2]), t |-> "red", ix |-> <<x[4]>>],
+                                               [fl |-> FlagOf(x[3]), t |-> "red", ix |-> <<x[5]>>]>>] :
+             x \in {y \in (1..Len(TplSeq2)) \X {0, 1} \X {0, 1, 2} \X (1..NR) \X (1..NR) :
+                       Keep(((((y[1] - 1) * 2 + y[2]) * 3 + y[3]) * NR + (y[4] - 1)) * NR + (y[5] - 1))}}
 
 SlotOf(s) == Slot(s.fl, [k \in 1..Len(s.ix) |-> IF s.t = "red" THEN Reduced[s.ix[k]] ELSE Univ[s.t][s.ix[k]]])
 ProgOf(c) == Build(c.tpl, [k \in 1..Len(c.slots) |-> SlotOf(c.slots[k])])
